@@ -88,7 +88,7 @@ int64_t g_k;   /* observer: an arbitrary input index */
 #define MI_STATIC_ILLEGAL(select, output) ((output)->type != CHAN_SINGLE || (select) == (output))
 int cr_mux_init(struct mux *mux, struct bay *bay, struct chan *select, struct chan *output, mux_select_func_t select_func, int64_t ninputs)
 __CPROVER_requires(ninputs >= 0 && ninputs <= MAXIN)
-__CPROVER_requires(g_find_failed == 0 && g_addcb_failed == 0 && DIAG_PRE)
+__CPROVER_requires(g_find_failed == 0 && g_addcb_failed == 0 && g_err < 0x7fffff00u)
 __CPROVER_assigns(*mux, output->prop[CHAN_DIRTY_WRITE], output->prop[CHAN_ALLOW_DUP], g_find_failed, ADDCB_FRAME, DIAG_FRAME)
 __CPROVER_ensures(g_err >= __CPROVER_old(g_err) && g_err - __CPROVER_old(g_err) <= 4u)
 __CPROVER_ensures(__CPROVER_return_value == 0 || (__CPROVER_return_value == -1 && g_err > __CPROVER_old(g_err)))
@@ -131,7 +131,7 @@ void h_mux_init(void)
 
 int cr_mux_set_input(struct mux *mux, int64_t index, struct chan *chan)
 __CPROVER_requires(index >= 0 && index < mux->ninputs)   /* callers: 0 of 1 (thread tracks), gindex of nthreads (CPU tracks) */
-__CPROVER_requires(g_addcb_failed == 0 && g_err < 2000000u)
+__CPROVER_requires(g_addcb_failed == 0 && g_err < 0x7fffff00u)
 __CPROVER_assigns(mux->inputs[index], ADDCB_FRAME, DIAG_FRAME)
 __CPROVER_ensures(g_err >= __CPROVER_old(g_err) && g_err - __CPROVER_old(g_err) <= 4u)
 __CPROVER_ensures(__CPROVER_return_value == 0 || (__CPROVER_return_value == -1 && g_err > __CPROVER_old(g_err)))
@@ -198,3 +198,4 @@ void h_track_th_input_chan(void)
 	if (r != 0 && w_mode == TRACK_TH_MAX) REACH("refused: unknown mode");
 	if (r != 0 && w_mode == TRACK_TH_RUN && g_addcb_failed) REACH("refused: mux could not be built");
 }
+
